@@ -2,7 +2,7 @@
 trait-method calls re-resolved once substitution makes the receiver type concrete."""
 from .types import TypeCx, ty_str
 
-MAX_DEPTH = 7
+MAX_DEPTH = 10
 
 # never inlined (formatting / debug helpers are irrelevant to every rule)
 NO_INLINE_PREFIX = ("core::fmt", )
@@ -156,7 +156,7 @@ class Graph:
                 owner = inst
                 while cfn is not None and owner is not None and not cl[0]["path"].startswith(owner.fn["path"] + "::{closure"):
                     owner = owner.parent
-                if cfn is not None and owner is not None and cfn["path"] not in chain:
+                if cfn is not None and owner is not None and chain.count(cfn["path"]) < 2:
                     node.callee_inst = self._instantiate(cfn, owner.subst, inst, node.gid, depth + 1, chain + (cfn["path"],))
                     node.closure_call = comb
                 continue
@@ -167,7 +167,9 @@ class Graph:
                 continue
             cfn, cenv, how = r
             cp = cfn["path"]
-            if depth + 1 > self.max_depth or cp in chain or cp in self.no_inline:
+            # a generic helper may legitimately occur twice on one call chain with different arguments (a dispatch helper nested in its own closure);
+            # real recursion is cut at the second re-entry
+            if depth + 1 > self.max_depth or chain.count(cp) >= 2 or cp in self.no_inline:
                 continue
             if self.inline_filter and not self.inline_filter(cfn, callee, inst):
                 continue
